@@ -17,6 +17,7 @@
 
 struct KSI_OctetString_st { KSI_CTX *ctx; size_t ref; unsigned char *data; size_t data_len; };
 
+KSI_BlockSignerHandle *g_bsh_out;                      /* receives the handle of KSI_BlockSigner_addLeaf */
 KSI_BlockSigner *g_bs_out;                            /* receives the result of KSI_BlockSigner_new */
 #define CB_MAX 4
 KSI_TreeBuilderLeafProcessor *g_cb_el[CB_MAX];
@@ -68,6 +69,62 @@ int KSI_OctetString_extract(const KSI_OctetString *o, const unsigned char **data
 }
 struct KSI_Signature_st { size_t ref; };
 void KSI_Signature_free(KSI_Signature *s) { if (s != NULL) { g_sig_free_calls++; g_sig_freed = s; if (--s->ref == 0) free(s); } }
+
+/* ---- the tree builder's leaf path as seen by the block signer (KSI_BlockSigner_addLeaf job) -------------------
+ * KSI_TreeBuilder_addDataHash runs every leaf processor of the builder once, in list order, on the node made for
+ * the leaf (tree_builder.c processAndInsertNode), then inserts; any processor, the insertion or an allocation may
+ * fail.  g_add_res records whether the leaf finally IS in the tree.                                   [ASSUMED] */
+struct KSI_TreeLeafHandle_st { size_t ref; };
+unsigned g_add_calls; int g_add_res; long g_bs_live;      /* g_bs_live: nodes / handles made here and not released */
+int KSI_TreeNode_new(KSI_CTX *ctx, KSI_DataHash *hash, KSI_MetaData *metaData, int level, KSI_TreeNode **node) {
+	KSI_TreeNode *n;
+	if (ctx == NULL || node == NULL || ((hash == NULL) == (metaData == NULL)) || level < 0 || level > 0xff) return KSI_INVALID_ARGUMENT;
+	n = malloc(sizeof(*n));
+	if (n == NULL) return KSI_OUT_OF_MEMORY;
+	n->ctx = ctx; n->hash = KSI_DataHash_ref(hash); n->metaData = metaData; n->level = (unsigned)level; n->parent = NULL; n->leftChild = NULL; n->rightChild = NULL;
+	g_bs_live++; *node = n; return KSI_OK;
+}
+void KSI_TreeNode_free(KSI_TreeNode *n) { if (n != NULL) { KSI_DataHash_free(n->hash); g_bs_live--; free(n); } }
+void KSI_TreeLeafHandle_free(KSI_TreeLeafHandle *h) { if (h != NULL && --h->ref == 0) { g_bs_live--; free(h); } }
+int KSI_TreeBuilder_addDataHash(KSI_TreeBuilder *b, KSI_DataHash *hsh, int level, KSI_TreeLeafHandle **leaf) {
+	KSI_TreeNode in; KSI_TreeNode *out = NULL; KSI_TreeLeafHandle *h; int res;
+	g_add_calls++; g_add_res = KSI_UNKNOWN_ERROR;
+	if (b == NULL || hsh == NULL || level < 0 || level > 0xff || leaf == NULL) return g_add_res = KSI_INVALID_ARGUMENT;
+	in.ctx = b->ctx; in.hash = hsh; in.metaData = NULL; in.level = (unsigned)level; in.parent = NULL; in.leftChild = NULL; in.rightChild = NULL;
+	h = malloc(sizeof(*h));
+	if (h == NULL) return g_add_res = KSI_OUT_OF_MEMORY;
+	h->ref = 1; g_bs_live++;
+	if (b->cbList == g_cb_list && g_cb_n > 0) {
+		res = g_cb_el[0]->fn(&in, g_cb_el[0]->c, &out);
+		if (res != KSI_OK) { KSI_TreeLeafHandle_free(h); return g_add_res = res; }
+		if (out != NULL) { in.level++; KSI_TreeNode_free(out); out = NULL; }      /* joined on top of the leaf */
+	}
+	if (b->cbList == g_cb_list && g_cb_n > 1) {
+		res = g_cb_el[1]->fn(&in, g_cb_el[1]->c, &out);
+		if (res != KSI_OK) { KSI_TreeLeafHandle_free(h); return g_add_res = res; }
+		if (out != NULL) { KSI_TreeNode_free(out); out = NULL; }
+	}
+	if (nondet_bool()) { KSI_TreeLeafHandle_free(h); return g_add_res = KSI_OUT_OF_MEMORY; }    /* join / insertion failed */
+	*leaf = h;
+	return g_add_res = KSI_OK;
+}
+/* hasher used by the masking processor: every call may fail; close makes a new hash object */
+int KSI_DataHasher_reset(KSI_DataHasher *h) { return (h == NULL || nondet_bool()) ? KSI_INVALID_ARGUMENT : KSI_OK; }
+int KSI_DataHasher_add(KSI_DataHasher *h, const void *d, size_t n) { return (h == NULL || nondet_bool()) ? KSI_INVALID_ARGUMENT : KSI_OK; }
+int KSI_DataHasher_addImprint(KSI_DataHasher *h, const KSI_DataHash *x) { return (h == NULL || x == NULL || nondet_bool()) ? KSI_INVALID_ARGUMENT : KSI_OK; }
+int KSI_DataHasher_addOctetString(KSI_DataHasher *h, const KSI_OctetString *x) { return (h == NULL || x == NULL || nondet_bool()) ? KSI_INVALID_ARGUMENT : KSI_OK; }
+int KSI_DataHasher_close(KSI_DataHasher *h, KSI_DataHash **out) {
+	KSI_DataHash *r;
+	if (h == NULL || out == NULL || nondet_bool()) return KSI_INVALID_ARGUMENT;
+	r = malloc(sizeof(*r));
+	if (r == NULL) return KSI_OUT_OF_MEMORY;
+	r->ref = 1; r->ctx = NULL; *out = r; return KSI_OK;
+}
+int KSI_DataHash_extract(const KSI_DataHash *h, KSI_HashAlgorithm *algo, const unsigned char **digest, size_t *len) {
+	if (h == NULL || nondet_bool()) return KSI_INVALID_ARGUMENT;
+	if (algo != NULL) *algo = (KSI_HashAlgorithm)nondet_int();
+	return KSI_OK;
+}
 
 static struct KSI_DataHasher_st g_bs_hsr_obj;
 int KSI_DataHasher_open(KSI_CTX *ctx, KSI_HashAlgorithm algo, KSI_DataHasher **h) {
